@@ -10,3 +10,12 @@ open WebPkg.C11
 #print axioms encodeMap_perm
 #print axioms encodeMap_sort_independent
 #print axioms encodeBool_value
+open WebPkg.CborSeq
+#print axioms run_tokens
+#print axioms run_shortest
+#print axioms run_refuses_iff
+#print axioms run_refused_no_trace
+#print axioms run_map_perm
+#print axioms run_text_valid
+#print axioms tokens_encodeTokens
+#print axioms map_accepted_of_distinct
